@@ -54,4 +54,9 @@ def sortRect (x1 y1 x2 y2 : Nat) : Rect := ⟨min x1 x2, min y1 y2, max x1 x2, m
 is looked at or changed -/
 def mergeCell (l : List Rect) (x1 y1 x2 y2 : Nat) : List Rect := l ++ [sortRect x1 y1 x2 y2]
 
+/-- the stored-list part of merge.go `UnmergeCell`: `mergeOverlapCells` (= `normalize`) in place, then every
+range that `isOverlap`s the corrected argument range is dropped, the others keep their order -/
+def unmergeCell (l : List Rect) (x1 y1 x2 y2 : Nat) : List Rect :=
+  (normalize l).filter fun m => !overlap (sortRect x1 y1 x2 y2) m
+
 end XlModel.SaveMerge
